@@ -4,6 +4,7 @@ driver — runs the Lean model on the same TSV cases the Rust harness runs on th
 -/
 import RuschmModel.DriverNum
 import RuschmModel.DriverText
+import RuschmModel.DriverMacro
 open Ruschm
 
 def runCase (kind : String) (fields : List String) : List String :=
@@ -12,6 +13,7 @@ def runCase (kind : String) (fields : List String) : List String :=
   | "lex" => Driver.lex fields
   | "read" => Driver.read fields
   | "bracket" => Driver.bracket fields
+  | "expand" => Driver.expand fields
   | k => ["X unknown-kind " ++ k]
 
 partial def loop (h : IO.FS.Stream) (out : IO.FS.Stream) : IO Unit := do
